@@ -309,17 +309,16 @@ Example r2_neg_2' : r2_trace r2_cfg (init_world r2_cfg) r2_n2' =
 Proof. vm_compute. reflexivity. Qed.
 
 (** N3. (Model only: the Go UnsafeFilter has no Register.) A registered unsafe filter whose fixed
-    relation names a component outside its mask ([ci_entry], check 30, false) makes createTable
-    panic INSIDE cache_add_table, after the table was added to the archetype. Since [create_table]
-    registers the targets BEFORE it touches the table lists, the table's target is registered all
-    the same: checks 28 and 29, which this script used to break as well, hold now; only the
-    precondition violation itself (30) persists, and every later creation of a matching relation
-    table panics again. *)
+    relation names a component outside its mask violates the cache clause [ci_entry] (check 30) from
+    the moment it is registered. It used to make createTable panic INSIDE cache_add_table (Matches on
+    a component the new table lacks was a nil dereference); since the repair of table.Matches such a
+    relation is simply "no match", so nothing panics any more; the precondition violation itself
+    (check 30) persists because it is a property of the registered filter, not of the tables. *)
 Definition r2_n3 : list (list Z) :=
   [[0]; [15; 1; 1;0; 0; 0; 1; 4;0]; [16; 0]; [2; 2;0;3; 1; 3;0]; [0]; [11; 0]; [2; 2;0;3; 1; 3;1]].
 Example r2_neg_3 : r2_trace r2_cfg (init_world r2_cfg) r2_n3 =
-  [(0, []); (0, []); (0, [30%nat]); (1, [30%nat]); (0, [30%nat]);
-   (0, [30%nat]); (1, [30%nat])].
+  [(0, []); (0, []); (0, [30%nat]); (0, [30%nat]); (0, [30%nat]);
+   (0, [30%nat]); (0, [30%nat])].
 Proof. vm_compute. reflexivity. Qed.
 
 Definition r2_check_all :=
